@@ -23,7 +23,7 @@ type ccase struct {
 const slots = 16 // sink id = sid*slots + slot; slot j<4: result j; slot 4+k: argument k after the call
 
 func (c *ccase) fname() string {
-	if c.form == "F" {
+	if c.form == "F" || c.form == "FV" {
 		return fmt.Sprintf("f_%d", c.id)
 	}
 	return fmt.Sprintf("M_%d", c.id)
@@ -86,10 +86,13 @@ func body(c *ccase) string {
 func (c *ccase) render(b *strings.Builder, used map[string]bool) {
 	name := c.fname()
 	switch c.form {
-	case "F":
+	case "F", "FV":
 		fmt.Fprintf(b, "func %s(%s)%s %s\n", name, params(0, c.n), results(c.m), body(c))
+		if c.form == "FV" {
+			fmt.Fprintf(b, "var fv_%d = %s\n\n", c.id, name)
+		}
 	default:
-		if c.form != "FM" {
+		if c.form != "FM" && c.form != "MV" {
 			fmt.Fprintf(b, "type I_%d interface {\n\t%s(%s)%s\n}\n\n", c.id, name, params(1, c.n), results(c.m))
 		}
 		fmt.Fprintf(b, "func (a0 *T) %s(%s)%s %s\n", name, params(1, c.n), results(c.m), body(c))
@@ -128,7 +131,7 @@ func (c *ccase) render(b *strings.Builder, used map[string]bool) {
 		}
 		var as []string
 		lo := 0
-		if c.form != "F" {
+		if c.form != "F" && c.form != "FV" {
 			lo = 1
 		}
 		for k := lo; k < c.n; k++ {
@@ -137,8 +140,12 @@ func (c *ccase) render(b *strings.Builder, used map[string]bool) {
 		switch c.form {
 		case "F":
 			fmt.Fprintf(b, "\t%s%s(%s)\n", lhs, name, strings.Join(as, ", "))
+		case "FV":
+			fmt.Fprintf(b, "\t%sfv_%d(%s)\n", lhs, c.id, strings.Join(as, ", "))
 		case "FM":
 			fmt.Fprintf(b, "\t%sa0.%s(%s)\n", lhs, name, strings.Join(as, ", "))
+		case "MV":
+			fmt.Fprintf(b, "\th := a0.%s\n\t%sh(%s)\n", name, lhs, strings.Join(as, ", "))
 		default:
 			fmt.Fprintf(b, "\tvar x I_%d = a0\n\t%sx.%s(%s)\n", c.id, lhs, name, strings.Join(as, ", "))
 		}
@@ -182,9 +189,9 @@ func specs(mod string, cs []*ccase) []byte {
 	for _, c := range cs {
 		sum := specSummary{nonNil(c.args), nonNil(c.rets)}
 		switch c.form {
-		case "F":
+		case "F", "FV":
 			fn.Methods[c.fname()] = sum
-		case "FM":
+		case "FM", "MV":
 			mt.Methods[c.fname()] = sum
 		case "I", "IP":
 			all = append(all, specContract{InterfaceID: fmt.Sprintf("%s.I_%d", mod, c.id), Methods: map[string]specSummary{c.fname(): sum}})
